@@ -6,14 +6,15 @@ sys.path.insert(0, os.path.join(os.path.dirname(os.path.dirname(os.path.abspath(
 import kmirror, registry
 with kmirror.MirrorLock():
     kmirror.build_mirror()
-    seen = set()
+    # build the dependencies once per crate by running one trivial harness each
+    first = {}
     for h, spec in registry.HARNESSES.items():
         key = (spec['crate'], tuple(spec['features']) if spec.get('features') is not None else None)
-        if key in seen:
-            continue
-        seen.add(key)
-        ok, out = kmirror.codegen(key[0], list(key[1]) if key[1] is not None else None)
-        print('codegen', key, 'ok' if ok else 'FAILED')
-        if not ok:
-            print(out[-2000:])
+        first.setdefault(key, (h, spec))
+    for key, (h, spec) in first.items():
+        r = kmirror.run_group(key[0], list(key[1]) if key[1] is not None else None, [kmirror.harness_path(spec['file'], h)], nproc=2, timeout=1800)
+        v = list(r.values())[0]['verdict']
+        print('warm-up', key, h, v)
+        if v == 'ERROR':
+            print(list(r.values())[0].get('output_tail', '')[-2000:])
             sys.exit(1)
